@@ -762,3 +762,13 @@ def init_value(body, t, _depth=0):
 def loop_source(body, next_call):
     """tree of the iterator a `next()` call pulls from, with loop iterator variables expanded to their source"""
     return init_value(body, sym(body, next_call.args[0]))
+
+
+def const_str(t):
+    """string value of a &str literal node, else None"""
+    import re as _re
+    if isinstance(t, tuple) and t and t[0] == 'const':
+        m = _re.match(r'^(?:const )?"(.*)"$', t[1], _re.S)
+        if m:
+            return m.group(1).encode().decode('unicode_escape') if '\\' in m.group(1) else m.group(1)
+    return None
